@@ -98,21 +98,7 @@ func (s *Seq) orderedBy(q *Query) string {
 func (s *Seq) buildSearch(q *Query) *sod.Search {
 	sr := s.db.Search(rec0(), q.First.Path, q.First.Op, q.First.V.Go())
 	for i, c := range q.Rest {
-		if i == len(q.Rest)-1 && (s.step+len(q.Rest)+len(c.C.Path))%2 == 0 {
-			// a search is a value: a sibling refined from the same prefix after this one
-			// (it widens the prefix to the whole collection) must not disturb it
-			prefix := sr
-			defer func() {
-				if prefix.Err() != nil {
-					return
-				}
-				sib := prefix.Or("Lid", ">=", 0)
-				if sib.Err() == nil && sib.Len() != len(s.M.Objs) {
-					s.fail(s.searchTag(q, ""), "sibling-wrong-len", "%s: the prefix of the query widened by OR Lid >= 0 denotes %d objects, expected all %d", q.String(), sib.Len(), len(s.M.Objs))
-				}
-				s.stat("search:sibling")
-			}()
-		}
+		prefix := sr
 		// And/Or directly, or through the string-keyed Operation entry point
 		viaOp := (len(q.First.Path)+len(c.C.Path)+i+s.step)%3 == 0
 		switch {
@@ -124,6 +110,15 @@ func (s *Seq) buildSearch(q *Query) *sod.Search {
 			sr = sr.Operation([]string{"and", "&&", "And"}[(i+s.step)%3], c.C.Path, c.C.Op, c.C.V.Go())
 		default:
 			sr = sr.And(c.C.Path, c.C.Op, c.C.V.Go())
+		}
+		if (s.step+i+len(c.C.Path))%2 == 0 && prefix.Err() == nil {
+			// a search is a value: a sibling refined from the same prefix after this one
+			// (it widens the prefix to the whole collection) must not disturb it
+			sib := prefix.Or("Lid", ">=", 0)
+			if sib.Err() == nil && sib.Len() != len(s.M.Objs) {
+				s.fail(s.searchTag(q, ""), "sibling-wrong-len", "%s: the first %d comparison(s) of the query widened by OR Lid >= 0 denote %d objects, expected all %d", q.String(), i+1, sib.Len(), len(s.M.Objs))
+			}
+			s.stat("search:sibling")
 		}
 	}
 	return sr
